@@ -913,6 +913,9 @@ fn css_doc_html_split(r: &mut Rng, author: &Value, body: &[N]) -> String {
 fn repeat_root_tags(r: &mut Rng, html: &str, ids: &[String]) -> String {
     let c1 = *r.pick(CLASSES); let c2 = *r.pick(CLASSES);
     let id2 = if !ids.is_empty() && r.chance(1, 2) { r.pick(ids).clone() } else { "i77".to_string() };
+    repeat_root_tags_with(r, html, c1, c2, &id2)
+}
+fn repeat_root_tags_with(r: &mut Rng, html: &str, c1: &str, c2: &str, id2: &str) -> String {
     let first = match r.below(3) { 0 => format!("<body class=\"{}\">", c1), 1 => format!("<body class=\"{}\" id=\"i76\">", c1), _ => "<body id=\"i76\">".to_string() };
     let second = format!("<body class=\"{}\" id=\"{}\" title=\"t\">", c2, id2);
     // (text directly in the body shows the body's own colour)
@@ -930,12 +933,19 @@ fn c20(r: &mut Rng, i: u64, p: &HashMap<String, String>) -> Vec<Value> {
     d.tables = r.chance(1, 3);
     let body = d.body(r);
     let nsel = if r.chance(1, 5) { 2 } else { 1 };
-    let sels: Vec<Value> = (0..nsel).map(|_| selector(r, 4, &d.ids)).collect();
+    let mut sels: Vec<Value> = (0..nsel).map(|_| selector(r, 4, &d.ids)).collect();
+    // a repeated <body> tag: one of the selectors names the class / id that only the second tag carries
+    let rep = r.chance(1, 6);
+    let (c1, c2) = (*r.pick(CLASSES), *r.pick(CLASSES));
+    if rep && c1 != c2 {
+        let last = if r.chance(1, 2) { json!({"comb": "", "name": "", "star": false, "cls": [c2], "id": "", "nth": []}) } else { json!({"comb": "", "name": "body", "star": false, "cls": [], "id": "i77", "nth": []}) };
+        sels.push(if r.chance(1, 2) { json!([last]) } else { json!([last, {"comb": "child", "name": "", "star": true, "cls": [], "id": "", "nth": []}]) });
+    }
     let agent = json!([rule(vec![json!([{"comb": "", "name": "", "star": true, "cls": [], "id": "", "nth": []}])], vec![col_decl(json!([0, 0, 1]), false)])]);
     let author = json!([rule(sels, vec![col_decl(json!([0, 0, 254]), false)])]);
     let vary = Vary { on: r.chance(1, 2), drop_semi: false, double_semi: false, junk: false, unknown_props: false };
     let html = css_doc_html(&sheet_text(&author, r, &vary), &body);
-    let html = if r.chance(1, 8) { repeat_root_tags(r, &html, &d.ids) } else { html };
+    let html = if rep { repeat_root_tags_with(r, &html, c1, c2, "i77") } else { html };
     let ops = vec![json!(["agentcss", sheet_text(&agent, r, &canonical())]), json!(["doccss"])];
     let w = r.range(5, wmax(p, 80));
     vec![json!({"id": id("c20", i), "meta": {"css": {"agent": agent, "user": [], "author": author}},
